@@ -22,6 +22,7 @@ MODULES = {
     "uni": dict(file="kani/uni.rs", pkg="nucleo-matcher", inject="matcher/src/lib.rs", parent="", needs=["spec", "optimal", "charmodel"]),
     "pattern": dict(file="kani/pattern.rs", pkg="nucleo-matcher", inject="matcher/src/pattern.rs", parent="pattern", needs=["spec", "optimal", "charmodel"]),
     "utf32": dict(file="kani/utf32.rs", pkg="nucleo-matcher", inject="matcher/src/utf32_str.rs", parent="utf32_str"),
+    "multipattern": dict(file="kani/multipattern.rs", pkg="nucleo", inject="src/pattern.rs", parent="pattern"),
     "score": dict(file="kani/score.rs", pkg="nucleo-matcher", inject="matcher/src/score.rs", parent="score", needs=["spec"]),
 }
 
@@ -389,6 +390,11 @@ for (k1, n1, k2, n2) in ((0, 0, 1, 0), (0, 0, 1, 1), (1, 1, 0, 0), (2, 0, 3, 0),
        "Pattern::score/indices of [%s%s atom (1 char), %s%s atom (2 chars)] == conjunction with negation, sum of positive scores, indices appended in atom order; the caller's matcher may carry any earlier case/normalisation setting" % ("negated " if n1 else "", KN[k1], "negated " if n2 else "", KN[k2]),
        unwind=8, bound="ASCII haystack 3 over {a,b,c,A,space}, needles 1 and 2 chars over {a,b,c,space}, symbolic ignore_case/normalize per atom, DEFAULT bonuses", cost=9 if heavy else 5, timeout=1500)
 UC("c15-pattern-empty", "pattern", "pattern_empty()", {"C15": "quick"}, "bounded", PAT_FNS[2:], "an empty pattern matches everything with score 0 and appends nothing", unwind=8, bound="ASCII haystack 3")
+UC("c15-multipattern-two-columns", "multipattern", "multipattern_two_columns()", {"C15": "quick"}, "bounded", ["nucleo::pattern::MultiPattern::score", "nucleo::pattern::MultiPattern::reparse", "pattern::Pattern::parse"],
+   "MultiPattern [\"a\", \"!b\"] over two columns == conjunction of the column patterns; matches iff column 0 contains a/A and column 1 contains no b/B", unwind=12,
+   bound="two columns of 2 ASCII bytes each, concrete pattern texts parsed by the real parser, real 135 KB matcher", cost=8, timeout=1500)
+UC("c15-multipattern-empty", "multipattern", "multipattern_empty()", {"C15": "quick"}, "bounded", ["nucleo::pattern::MultiPattern::score", "nucleo::pattern::MultiPattern::is_empty"],
+   "an empty multi pattern matches everything with score 0", unwind=8, bound="two columns of 2 ASCII bytes", cost=4)
 UC("c15-pattern-canary", "pattern", "pattern_canary()", {"C15": "quick", "C14": "quick"}, "bounded", [], "canary", unwind=8, expect="fail", no_cover=True)
 PARSE_STUB = [("crate::pattern::Atom::new_inner", "crate::pattern::verif_pattern::recording_new_inner")]
 for L in (1, 2, 3, 4, 5):
@@ -491,9 +497,9 @@ PROPERTIES = {
              "contract-based deductive verification (Kani contract harnesses, bounded byte strings, callee replaced by a recording stub)",
              "partial: marker grammar and splitting on bounded ASCII strings." + BOUNDED_NOTE,
              note="Trusted: Kani/CBMC; Atom::new_inner is NOT verified (replaced by a stub that records its arguments).", assumptions=["Atom::new_inner stubbed in the parse obligations"]),
-    "C15": P("other", "bounded contract checking of Atom/Pattern score and indices composition: two-atom patterns of every kind pair listed, both polarities, symbolic case/normalisation flags, symbolic ASCII haystack of 3; reference = the entry point called on a fresh matcher per atom. MultiPattern and match_list are not covered.",
+    "C15": P("other", "bounded contract checking of Atom/Pattern score and indices composition: two-atom patterns of every kind pair listed, both polarities, symbolic case/normalisation flags, symbolic ASCII haystack of 3; reference = the entry point called on a fresh matcher per atom; MultiPattern::score over two columns. match_list is not covered.",
              "contract-based deductive verification (Kani contract harnesses, bounded)",
-             "Pattern composition on bounded inputs; MultiPattern::score and match_list not covered." + BOUNDED_NOTE),
+             "Pattern composition on bounded inputs; match_list not covered." + BOUNDED_NOTE),
     "C16": P("proof", "every deciding obligation quantifies over the whole char domain (all 1,112,064 scalar values) x all configurations and is loop-free or fully unwound with unwinding assertions on: to_lower_case/is_upper_case == Unicode simple case folding oracle, normalize contract (documented blocks, NFKD base letter, idempotent, ASCII fixed), agreement of every normalising entry point incl. the prefilter's byte search. Complete proofs by Kani/CBMC on the real functions.",
              "contract-based deductive verification (Kani, complete over the full char domain)",
              "Complete proofs over the whole char domain.",
